@@ -5,10 +5,11 @@ import MinterModel.Bag
 -/
 namespace Minter
 
-abbrev Addr := Nat
-abbrev Coin := Nat
-abbrev PubKey := Nat
-abbrev Height := Nat
+-- These are notations (not abbreviations) so that `omega` sees plain `Nat` facts about coins and addresses.
+notation "Addr" => Nat
+notation "Coin" => Nat
+notation "PubKey" => Nat
+notation "Height" => Nat
 
 structure CoinInfo where
   id : Coin
